@@ -220,7 +220,10 @@ class ProductLoop(LoopContract):
     def iterate(self, ctx, it):
         u = self.u
         if ctx.choose(2, "product-loop") == 0:
-            p, s = u["objs"].new_node("Call", "p"), u["objs"].new_node("Call", "s")
+            p = u["objs"].new_node("Call", "p")
+            # the same node may be a predecessor AND a successor of the literal (a dependency cycle through it): the pair (x, x) is a pair of the
+            # product like any other - the rewrite must keep it (as a self-loop), or the cycle disappears before anyone checks for cycles
+            s = p if ctx.choose(2, "pair-is-(x,x)") == 1 else u["objs"].new_node("Call", "s")
             pt, st = u["objs"].nt(p), u["objs"].nt(s)
             ctx.assume(z3.And(member(u["P"], pt), member(u["S"], st), z3.Not(z3.Select(z3.Select(self.vis, pt), st))))
             ctx.assume(z3.And(member(self.N_s, pt), member(self.N_s, st)))
@@ -240,7 +243,7 @@ class ProductLoop(LoopContract):
         ctx.assume(z3.ForAll([a, b], z3.Select(z3.Select(self.vis, a), b) == z3.And(member(self.u["P"], a), member(self.u["S"], b))))
 
 
-@unit("pruning._prune_literal_if_trivial", props=["C01", "C09", "C04"], functions=[(REL, "_prune_literal_if_trivial")],
+@unit("pruning._prune_literal_if_trivial", props=["C01", "C09", "C04", "C07"], functions=[(REL, "_prune_literal_if_trivial")],
       assumptions=["T5", "L-BYPASS (lemma): the specified rewrite preserves reachability among the remaining nodes"], min_obligations=4)
 def prune_literal_unit(ctx):
     cls = real_classes()
